@@ -1,4 +1,5 @@
 """C10 - masked code computes the unmasked function for every randomness and share count."""
+import os
 from props import common
 
 LEVEL = "proof"
@@ -13,11 +14,17 @@ EXPLANATION = (
     "copy_from_xM / copy_to_x1 / randomize preserves all five unmasked words, in place and out of place, whatever the "
     "unused shares of the source hold. Masked permutations ascon_x2/x3/x4_permute (64-bit C): proved equal to the "
     "reference permutation on the unmasked state for all states, share patterns, preserved randomness and start rounds "
-    "by the lemma/use pair of C08 (round lemma for an arbitrary iteration; loop contract + enforced function contract)."
+    "by the lemma/use pair of C08 (round lemma for an arbitrary iteration; loop contract + enforced function contract). "
+    "Masked one-shot AEAD (ascon128/128a/80pq_masked_aead_encrypt/decrypt, 64-bit C masked words, default 4 key / 2 data shares; 2/2, 3/3, 4/1, 4/4 in the thorough tier): the real entry point, masked absorb/encrypt/decrypt loops, word toolkit, state conversions and key masking are executed against Algorithm 1 over the abstract permutation with the masked permutations replaced by their C10 contract (any re-sharing) and an arbitrary random tape, at enumerated constant (adlen, mlen) around the block boundaries: ciphertext, tag, plaintext, 0/-1 and zeroed plaintext are those of the unmasked specification and the caller's masked key object is unchanged. "
+    "The x86-64 ASSEMBLY masked permutations (what the default build runs) are lifted instruction by instruction on every run and "
+    "proved round by round: one group per (share count, start round k) asserts, from an arbitrary sharing of an arbitrary state and "
+    "arbitrary preserved randomness, that the unmasked state after round k equals ref_round, re-shares arbitrarily at every cut, "
+    "takes the later rounds from their own groups, and asserts unmasked(state') == ref_permute(unmasked(state), k) at the exit. "
+    "The assembly masked-word toolkit is lifted likewise and run through the same word/key/state/AEAD obligations as the C backend."
 )
 ASSUMPTIONS = [
-    "x86-64 masked assembly (the default masked backend on this host) is NOT covered; the 32-bit C and direct-xor masked word backends are not covered",
-    "masked AEAD entry points (ascon*_masked_aead_*) are not yet under contract: their agreement with the unmasked AEAD is not claimed here",
+    "x86-64 masked assembly: the three permutations ascon_x2/x3/x4_permute are verified through tools/lift_x86_64.py (ASCON_MASKED_MAX_SHARES == 4 layout; instruction table, calling convention and 'first_round arrives zero-extended' trusted; quick tier: all rounds for x2, a seed-rotated third for x3, three for x4; thorough: all); the assembly masked WORD toolkit (ascon-word-asm-x86-64.S, 35 functions) is verified through the same lifter (additionally trusted: bswapq, movl/movzbl/movb forms, shrq %cl, call = C call with caller-saved registers havocked, a 32-bit 'unsigned size' argument arriving zero-extended) for the ASCON_MASKED_MAX_SHARES == 4 layout only; the 32-bit C and direct-xor masked word backends are not covered",
+    "masked AEAD: plain-assertion groups (no DFCC frame; exactly sized buffers), constant lengths enumerated around the block boundaries (not every length); masked permutations inside them are specification stubs carrying the contract proved by the c10.permute groups",
     "quick tier: x4 permutation round lemma (10 min solver time) is in the thorough tier only",
 ]
 
@@ -31,4 +38,11 @@ def groups(tier):
     gs += common.masked_permute_groups("c10", ["C10"], shares=(2, 3) if tier == "quick" else (2, 3, 4))
     if tier == "thorough":
         gs += common.masked_word_groups("c10", ["C10"], max_shares=2)
+    gs += common.masked_aead_groups("c10", ["C10"], tier)
+    # default build on x86-64: assembly word toolkit (lifted), and the C key/state code on top of it
+    gs += common.masked_word_groups("c10", ["C10"], cfg="DEF", max_shares=4)
+    gs += common.masked_key_groups("c10", ["C10"], cfg="DEF")
+    gs += common.masked_state_groups("c10", ["C10"], cfg="DEF")
+    gs += common.masked_aead_groups("c10", ["C10"], tier, cfg="DEF")
+    gs += common.masked_asm_permute_groups("c10", ["C10"], tier, seed=int(os.environ.get("VERIF_SEED", "0") or 0))
     return gs
